@@ -22,4 +22,12 @@ def register(REG):
         'C07': (buffer.c07, 'join->flag order in wait(), clear-before-done atomicity, get/task_done pairing, cancel target, flush edges, daemon cancel transparency'),
         'C08': (buffer.c08, 'single serial call site, non-empty guard, timer as the sole trigger re-armed per arrival with the configured value, drain-before-arm'),
     })
+    from . import helpers
+    REG.update({
+        'C16': (helpers.c16, 'sentinel on all producer exits, identity test in the consumer, producer outcome collected, off-loop iteration, thread-safe FIFO hand-off, executor scope'),
+        'C17': (helpers.c17, 'dispatch truth table, run-under-lock, double-checked lock creation, target-loop provenance, wait-until-running, stop-then-join'),
+        'C18': (helpers.c18, 'affine use of every iterator value, predicate applied once, complementary selectors on sibling tee copies, laziness, exhaust'),
+        'C19': (helpers.c19, 'split-once, ValueError translation, literal-only default parser and no code evaluation, str-only guarded parsing, key switch, single pipeline'),
+        'C20': (helpers.c20, 'gather(return_exceptions=True) over all awaitables, input order, isinstance filter, raise_first_exc pass-through'),
+    })
 
